@@ -139,10 +139,18 @@ def _compare(A, B, ties, demand, check_stems, contradiction_check):
         return None
     # ---- L0
     if set(A.counts) != set(B.counts):
-        return Diff("L0", "labels", _short(set(A.counts) ^ set(B.counts)))
-    if A.counts != B.counts:
+        # a shape all of whose constraints sit in frequency-tied groups can lose them all to the cascade described below
+        # (the promoted alternative points to a shape that is removed as empty) and is then removed as empty itself
+        def only_tied(lab, E):
+            ks = [k for k in E.keys if k[0] == lab]
+            return bool(ks) and all(_is_tied(ties, k[:3]) for k in ks)
+        untied = {l for l in set(A.counts) ^ set(B.counts) if not only_tied(l, A if l in A.counts else B)}
+        if untied:
+            return Diff("L0", "labels", _short(untied))
+    common = set(A.counts) & set(B.counts)
+    if any(A.counts[k] != B.counts[k] for k in common):
         return Diff("L0", "instance_counts",
-                    _short({(k, A.counts[k], B.counts[k]) for k in A.counts if A.counts[k] != B.counts[k]}))
+                    _short({(k, A.counts[k], B.counts[k]) for k in common if A.counts[k] != B.counts[k]}))
     if A.keys != B.keys:
         # inside a frequency-tied group arrival order decides which alternative is promoted; when the promoted one
         # points to a shape that is later removed as empty, the whole constraint goes with it - so a constraint key
@@ -153,8 +161,8 @@ def _compare(A, B, ties, demand, check_stems, contradiction_check):
     if demand == "L0":
         return None
     # ---- L1
-    if check_stems and A.stems != B.stems:
-        return Diff("L1", "stems", _short({(k, A.stems[k], B.stems[k]) for k in A.stems if A.stems[k] != B.stems[k]}))
+    if check_stems and any(A.stems[k] != B.stems[k] for k in common):
+        return Diff("L1", "stems", _short({(k, A.stems[k], B.stems[k]) for k in common if A.stems[k] != B.stems[k]}))
     fa = {f for f in A.facts if not _is_tied(ties, f[:3])}
     fb = {f for f in B.facts if not _is_tied(ties, f[:3])}
     if fa != fb:
